@@ -41,6 +41,11 @@ def read_block(staff, nstrings):
                 i = j
             elif ch in "-|":
                 i += 1
+            elif ch == " " and i + 1 < len(r) and (r[i + 1].isdigit() or r[i + 1] == " "):
+                # mingus right-aligns the fret numbers of one entry with "%Ns": a one-digit fret next to a
+                # two-digit one is written " 0".  The number is still read off the line, so padding is accepted
+                # (only directly in front of a number)
+                i += 1
             else:
                 raise TabError("unexpected character %r in staff" % ch)
     return [cols[k] for k in sorted(cols)]
